@@ -39,7 +39,8 @@ Check C18_sorted_order.
 Print Assumptions C18_sorted_order.
 (** one event from two states with the same channel-relevant part ([view_of]:
     both copies of the channel database, subscriptions, connection records,
-    clock) under ANY two configurations with the same expiration time (listing
+    clock) under ANY two configurations with the same expiration time and the
+    same welcome notices -- the welcome frame shows them -- (listing
     allowed or not, usage database or not, any blur interval, any usage database
     content): same next view, same frames (modulo the content of `nameplates`
     answers; identical when the listing setting agrees), same escaped exception *)
@@ -62,8 +63,8 @@ Print Assumptions C18_same_timer_same_firing.
 (** all twelve configurations of the property share the repository's constants *)
 (** ** closed form, from the initial state, for every history with sweeps AND RESTARTS (ViewFactsR.v)
 
-    Any two configurations with the same expiration time and sweep period (listing allowed or
-    not, usage database or not, any blur interval), the same history from their initial states:
+    Any two configurations with the same expiration time, sweep period and welcome notices
+    (listing allowed or not, usage database or not, any blur interval), the same history from their initial states:
     the channel-relevant view of the final states, every frame on every connection except for
     the content of `nameplates` answers (all frames outright when the listing setting agrees),
     and every escaped exception are identical.  No hypothesis about when the sweep timers fire:
@@ -95,5 +96,6 @@ Proof. exact config_erasure_nonvacuous. Qed.
 Example C18_nonvacuous :
   exp (gen_cfg true true (Some 56)) = exp (gen_cfg false false None) /\
   period (gen_cfg true true (Some 56)) = period (gen_cfg false false None) /\
+  welcome (gen_cfg true true (Some 56)) = welcome (gen_cfg false false None) /\
   0 < exp (gen_cfg true true (Some 56)).
-Proof. split; [reflexivity|]. split; [reflexivity|]. exact (gen_cfg_exp _ _ _). Qed.
+Proof. split; [reflexivity|]. split; [reflexivity|]. split; [reflexivity|]. exact (gen_cfg_exp _ _ _). Qed.
